@@ -12,12 +12,20 @@ use crate::rng::SplitMix64;
 use crate::script::{Cfg, FormatArgs, History, Op};
 use crate::util::Tier;
 
+#[path = "gen_big.rs"]
+mod gen_big;
 #[path = "gen_dirty.rs"]
 mod gen_dirty;
+#[path = "gen_fault.rs"]
+mod gen_fault;
+#[path = "gen_feat.rs"]
+mod gen_feat;
 #[path = "gen_file.rs"]
 mod gen_file;
 #[path = "gen_flush.rs"]
 mod gen_flush;
+#[path = "gen_foreign.rs"]
+mod gen_foreign;
 #[path = "gen_ns.rs"]
 mod gen_ns;
 #[path = "gen_ro.rs"]
@@ -27,7 +35,8 @@ mod gen_space;
 #[path = "gen_time.rs"]
 mod gen_time;
 
-pub const SCENARIOS: [&str; 7] = ["ns", "file", "space", "ro", "dirty", "time", "flush"];
+pub const SCENARIOS: [&str; 11] =
+    ["ns", "file", "space", "ro", "dirty", "time", "flush", "fault", "feat", "foreign", "big"];
 
 /// Where finished histories go: printed as scripts (`gen`) or executed (`hist`).
 pub struct Sink<'a> {
@@ -37,6 +46,11 @@ pub struct Sink<'a> {
 }
 
 impl Sink<'_> {
+    /// A `# …` line between histories (the same in scripts and traces).
+    pub fn comment(&mut self, line: &str) {
+        writeln!(self.out, "{}", line).unwrap();
+    }
+
     pub fn emit(&mut self, h: History) {
         self.count += 1;
         if self.exec {
@@ -63,6 +77,10 @@ pub fn run(scenario: &str, tier: Tier, seed: u64, exec: bool, extra: &[String], 
         "dirty" => gen_dirty::run(tier, seed, &mut rng, n_override, &mut sink),
         "time" => gen_time::run(tier, seed, &mut rng, n_override, &mut sink),
         "flush" => gen_flush::run(tier, seed, &mut rng, n_override, &mut sink),
+        "fault" => gen_fault::run(tier, seed, &mut rng, n_override, &mut sink),
+        "feat" => gen_feat::run(tier, seed, &mut rng, n_override, &mut sink),
+        "foreign" => gen_foreign::run(tier, seed, &mut rng, n_override, &mut sink),
+        "big" => gen_big::run(tier, seed, &mut rng, n_override, &mut sink),
         _ => return false,
     }
     true
@@ -297,8 +315,25 @@ pub const LOSSY: [&str; 5] = ["my file.txt", "a.b.c", ".hidden", "x+y=z.txt", "L
 pub const NON_ASCII: [&str; 4] = ["a\u{dc}n\u{ef}.txt", "x\u{df}", "a\u{65e5}\u{672c}.txt", "A\u{dc}N\u{cf}.TXT"];
 /// rejected with a user error, no panic
 pub const INVALID: [&str; 5] = ["a:b", "x*y", "q?", "a\\b", "tab\tx"];
-/// `ShortNameGenerator::new` panics on these (empty, or first char multi-byte) — known defect F5
+/// Edge names: empty, or first char multi-byte. `ShortNameGenerator::new` used to panic on these (defect F5, fixed
+/// in /repo); they are used like any other name now (a regression shows up as `panic` + `dead`).
 pub const PANICKY: [&str; 3] = ["", "\u{dc}n\u{ef}.txt", "\u{df}"];
+/// Names that differ only by non-ASCII case (the `unicode` feature decides whether they collide):
+/// Ünï/ÜNÏ, ß/SS (ß upper-cases to two units), ǆ/ǅ/Ǆ, Greek sigma / final sigma.
+pub const FAMILY_UNI: [&str; 12] = [
+    "\u{dc}n\u{ef}.txt",
+    "\u{dc}N\u{cf}.TXT",
+    "\u{fc}n\u{ef}.TXT",
+    "\u{df}",
+    "SS",
+    "ss",
+    "a\u{1c6}",
+    "a\u{1c5}",
+    "A\u{1c4}",
+    "\u{3c3}\u{3b1}\u{3c2}.txt",
+    "\u{3a3}\u{391}\u{3a3}.TXT",
+    "\u{3c3}\u{3b1}\u{3c3}.txt",
+];
 
 pub fn name_13() -> String {
     "abcdefghi.txt".to_string()
@@ -319,6 +354,11 @@ pub fn is_panicky(name: &str) -> bool {
     name.is_empty() || !name.is_char_boundary(1)
 }
 
+/// A path component that cannot be used to walk to an object.
+fn unusable(name: &str) -> bool {
+    name.is_empty() || name.contains('/')
+}
+
 /// Last path component the way `split_path` sees it (for the panic check of create / rename destinations).
 pub fn last_component(path: &str) -> &str {
     let t = path.trim_matches('/');
@@ -333,6 +373,21 @@ pub fn alphabet(rng: &mut SplitMix64) -> Vec<String> {
     let mut v: Vec<String> = Vec::new();
     let n = rng.range(6, 10) as usize;
     // one or two families in full or in part
+    if rng.chance(1, 6) {
+        // names that differ only by non-ASCII case
+        let k = rng.below(4) as usize * 3;
+        for s in FAMILY_UNI.iter().skip(k).take(3) {
+            v.push(s.to_string());
+        }
+        if rng.chance(1, 2) {
+            let k2 = rng.below(4) as usize * 3;
+            for s in FAMILY_UNI.iter().skip(k2).take(3) {
+                if !v.contains(&s.to_string()) {
+                    v.push(s.to_string());
+                }
+            }
+        }
+    }
     match rng.below(3) {
         0 => {
             for s in FAMILY_CASE.iter().take(rng.range(2, 4) as usize) {
@@ -361,7 +416,14 @@ pub fn alphabet(rng: &mut SplitMix64) -> Vec<String> {
             9 => name_13(),
             10 => name_26(),
             11 => name_255(),
-            12..=13 => rng.pick(&INVALID).to_string(),
+            12 => rng.pick(&INVALID).to_string(),
+            13 => {
+                if rng.chance(1, 3) {
+                    String::new()
+                } else {
+                    rng.pick(&FAMILY_UNI).to_string()
+                }
+            }
             14 => name_256(),
             15..=16 => rng.pick(&FAMILY_LONG).to_string(),
             17 => rng.pick(&FAMILY_CASE).to_string(),
@@ -387,6 +449,10 @@ pub fn upper(s: &str) -> String {
 
 /// Random case variant of an ASCII-ish name (used to exercise case-insensitive lookup).
 pub fn recase(rng: &mut SplitMix64, s: &str) -> String {
+    if !s.is_ascii() && rng.chance(1, 2) {
+        // full Unicode case change (matches only when the library is built with `unicode`)
+        return if rng.chance(1, 2) { s.to_uppercase() } else { s.to_lowercase() };
+    }
     match rng.below(3) {
         0 => s.to_ascii_uppercase(),
         1 => s.to_ascii_lowercase(),
@@ -659,7 +725,7 @@ impl Ctx {
                 if k.is_dir {
                     let mut kk = key.clone();
                     kk.push(k.short.clone());
-                    let name = if k.long.is_empty() || is_panicky(&k.long) {
+                    let name = if unusable(&k.long) {
                         String::from_utf8_lossy(&k.short).to_string()
                     } else {
                         k.long.clone()
@@ -681,7 +747,7 @@ impl Ctx {
             for k in &n.kids {
                 let mut kk = key.clone();
                 kk.push(k.short.clone());
-                let name = if k.long.is_empty() || is_panicky(&k.long) {
+                let name = if unusable(&k.long) {
                     String::from_utf8_lossy(&k.short).to_string()
                 } else {
                     k.long.clone()
@@ -706,7 +772,7 @@ impl Ctx {
         for c in key {
             match n.kids.iter().find(|k| &k.short == c) {
                 Some(k) => {
-                    parts.push(if k.long.is_empty() || is_panicky(&k.long) {
+                    parts.push(if unusable(&k.long) {
                         String::from_utf8_lossy(&k.short).to_string()
                     } else {
                         k.long.clone()
